@@ -175,6 +175,13 @@ fn import_extension_fields(node: &mut Node, doc: &mut RustDocument, base_fields:
                 import_sequence_node_fields(&mut base, doc, base_fields)?;
             }
         }
+
+        // the attributes that the extension adds
+        for n in base.children().filter(Node::is_element) {
+            if n.tag_name().name() == "attribute" {
+                base_fields.push(Field::try_from_node(n, doc)?);
+            }
+        }
     }
     Ok(())
 }
